@@ -49,7 +49,7 @@ def make(tier):
             tc_jobs.append(f)
     P.generated['tc.cpp'] = shim
     P.generated['tc.spec'] = spec
-    u = P.unit('tc', 'tc.cpp', specs=['tc.spec'], sroa=True)
+    u = P.unit('tc', 'tc.cpp', specs=['tc.spec'], inline=True)
     for f in tc_jobs:
         u.contract(f, cls='P', backends=['sat', 'cvc5'], timeout=300,
                    what='truncation_check<D>(s) has a value exactly when s is representable in D, and then the value is s')
@@ -198,6 +198,6 @@ enum class e200_u8 : unsigned char { first = 0, last = 199, fcppt_maximum = last
             u_jobs.append(f)
     P.generated['enum.cpp'] = shim
     P.generated['enum.spec'] = spec
-    u = P.unit('enum', 'enum.cpp', specs=['enum.spec'], sroa=True)
+    u = P.unit('enum', 'enum.cpp', specs=['enum.spec'], inline=True)
     for f in u_jobs:
         u.contract(f, cls='P', backends=['sat', 'cvc5'], what='from_int<E>(v) yields the enumerator with value v exactly when v < size(E)')
